@@ -91,6 +91,14 @@ class AIter:
         self.pos = 0
 
 
+class ACount:
+    """itertools.count(start, step)"""
+
+    def __init__(self, start=0, step=1):
+        self.value = start
+        self.step = step
+
+
 class ContinueSig(Exception):
     pass
 
@@ -308,7 +316,7 @@ class Interp:
             return bool(v.d)
         if isinstance(v, AList):
             return bool(v.l)
-        if isinstance(v, (AMatch, ALine, ARegex, ModuleFunc, APart, AIter)):
+        if isinstance(v, (AMatch, ALine, ARegex, ModuleFunc, APart, AIter, ACount)):
             return True
         if isinstance(v, Sym):
             if v.kind in ('group', 'parsed', 'unescaped', 'arglist', 'line', 'fstr'):
@@ -382,10 +390,10 @@ class Interp:
                 return self._lazy[e.id]
             if e.id in ('set', 'frozenset', 'sorted', 'any', 'all', 'zip', 'abs', 'sum'):
                 return ('builtin', e.id)
+            if e.id in self.mod.imports and self.mod.imports[e.id][1] is None:
+                return ('module', self.mod.imports[e.id][0])
             if e.id in self.mod.imports and getattr(self, 'repo', None) is not None:
                 modname, orig = self.mod.imports[e.id]
-                if orig is None:
-                    return ('module', modname)
                 other = self.repo.resolve_module(modname)
                 if other is not None:
                     if orig in other.classes:
@@ -400,7 +408,7 @@ class Interp:
                             pass
                 return ('extern', modname, orig)
             if e.id in ('len', 'next', 'iter', 'reversed', 'list', 'enumerate', 'isinstance', 'str', 'int', 'float', 'dict', 'tuple', 'range', 'bool', 'min', 'max', 'complex',
-                        'ord', 'chr', 'callable'):
+                        'ord', 'chr', 'callable', 'object', 'type'):
                 return ('builtin', e.id)
             self.bad(e, f'unknown name {e.id}')
         if isinstance(e, ast.Dict):
@@ -626,6 +634,10 @@ class Interp:
             r = self.method_hook(base, m, args, e)
             if r is not NotImplemented:
                 return r
+            if isinstance(base, tuple) and base and base[0] == 'module':
+                r = self.host_function(f'{base[1]}.{m}', args, e)
+                if r is not NotImplemented:
+                    return r
             if isinstance(base, ARegex):
                 if m == 'match':
                     line = args[0]
@@ -767,6 +779,10 @@ class Interp:
                 return args[0] if isinstance(args[0], AIter) else AIter(self.iterate(args[0], e))
             if name == 'next':
                 src = args[0]
+                if isinstance(src, ACount):
+                    v = src.value
+                    src.value += src.step
+                    return v
                 if isinstance(src, list):       # a generator expression evaluated eagerly
                     src = AIter(src)
                 if not isinstance(src, AIter):
@@ -804,7 +820,7 @@ class Interp:
                 if isinstance(args[0], Sym):
                     raise Unrecognised(self.rule, 'isinstance on a symbolic value', self.mod.rel)
                 v = args[0]
-                classes = [norm(x) for x in (e.args[1].elts if isinstance(e.args[1], ast.Tuple) else [e.args[1]])]
+                classes = self.class_names(e.args[1], args[1] if len(args) > 1 else None)
                 table = {'str': isinstance(v, (str, ALine)), 'dict': isinstance(v, ADict), 'list': isinstance(v, AList), 'int': isinstance(v, int),
                          'float': isinstance(v, float), 'bool': isinstance(v, bool), 'complex': False, 'tuple': isinstance(v, tuple)}
                 concrete = v is None or isinstance(v, (int, float, str, bool, ADict, AList, tuple))
@@ -812,6 +828,8 @@ class Interp:
                 for cls in classes:
                     if cls in table:
                         res = res or table[cls]
+                    elif cls == 'object':
+                        res = True
                     elif concrete and cls in ('datetime.date', 'datetime.datetime', 'REGEX_TYPE', 're.Pattern', 'uuid.UUID', 'date', 'datetime'):
                         pass
                     else:
@@ -844,7 +862,7 @@ class Interp:
             if name == 'bool':
                 return self.truth(args[0], e)
             if name in ('int', 'float'):
-                if isinstance(args[0], (int, float)) and not isinstance(args[0], bool):
+                if isinstance(args[0], (int, float)):
                     try:
                         return int(args[0]) if name == 'int' else float(args[0])
                     except (ValueError, OverflowError) as exc:
@@ -856,6 +874,16 @@ class Interp:
                 return chr(args[0])
             if name == 'abs' and isinstance(args[0], (int, float)):
                 return abs(args[0])
+            if name == 'type' and len(args) == 1:
+                v = args[0]
+                if isinstance(v, ARegex) or (isinstance(v, Sym) and v.kind in ('hostcall',) and v.args and v.args[0] == 're.compile'):
+                    return ('typeof', 're.Pattern')
+                if v is None:
+                    return ('typeof', 'type(None)')
+                for cls, nm in ((bool, 'bool'), (int, 'int'), (float, 'float'), (str, 'str'), (AList, 'list'), (ADict, 'dict')):
+                    if isinstance(v, cls):
+                        return ('builtin', nm)
+                self.bad(e, 'type() of an abstract value')
             if name == 'callable':
                 return isinstance(args[0], (ModuleFunc,)) or (isinstance(args[0], tuple) and args[0] and args[0][0] in ('closure', 'partial', 'extern', 'builtin')) or \
                     (isinstance(args[0], Sym) and args[0].kind == 'hostfn')
@@ -908,7 +936,57 @@ class Interp:
         sub.depth = self.depth
         return sub
 
+    def class_names(self, node, value=None):
+        """names of the classes an isinstance() second argument denotes: from the AST when it is written inline, otherwise from its evaluated value"""
+        elts = node.elts if isinstance(node, ast.Tuple) else [node]
+        if all(isinstance(x, (ast.Name, ast.Attribute)) for x in elts) and not any(isinstance(x, ast.Name) and x.id not in
+                                                                                      ('str', 'int', 'float', 'bool', 'list', 'dict', 'tuple', 'complex', 'object', 'REGEX_TYPE') for x in elts):
+            return [norm(x) for x in elts]
+
+        def name_of(v):
+            if isinstance(v, tuple) and v and v[0] == 'builtin':
+                return [v[1]]
+            if isinstance(v, tuple) and v and v[0] == 'hostattr':
+                return [v[1]]
+            if isinstance(v, tuple) and v and v[0] == 'typeof':
+                return [v[1]]
+            if isinstance(v, tuple):
+                out = []
+                for x in v:
+                    out += name_of(x)
+                return out
+            raise Unrecognised(self.rule, f'isinstance class value {v!r}', self.mod.rel)
+        if value is None:
+            return [norm(x) for x in elts]
+        return name_of(value)
+
     def call_value_hook(self, fn, args, e):
+        if isinstance(fn, tuple) and fn and fn[0] == 'hostattr':
+            return self.host_function(fn[1], args, e)
+        return NotImplemented
+
+    OPERATOR_CMP = {'operator.lt': ast.Lt, 'operator.le': ast.LtE, 'operator.gt': ast.Gt, 'operator.ge': ast.GtE, 'operator.eq': ast.Eq, 'operator.ne': ast.NotEq,
+                    'operator.is_': ast.Is, 'operator.is_not': ast.IsNot, 'operator.contains': None}
+    OPERATOR_BIN = {'operator.add': ast.Add, 'operator.sub': ast.Sub, 'operator.mul': ast.Mult, 'operator.truediv': ast.Div, 'operator.mod': ast.Mod, 'operator.pow': ast.Pow,
+                    'operator.floordiv': ast.FloorDiv}
+
+    def host_function(self, name, args, e):
+        """standard-library functions with exact models: itertools.count, the operator module"""
+        if name == 're.compile':
+            return ARegex('<anonymous>')
+        if name == 'itertools.count':
+            if all(isinstance(a, int) and not isinstance(a, bool) for a in args) and len(args) <= 2:
+                return ACount(*args)
+        if name in self.OPERATOR_CMP and len(args) == 2:
+            if name == 'operator.contains':
+                return self.compare(ast.In(), args[1], args[0], e)
+            return self.compare(self.OPERATOR_CMP[name](), args[0], args[1], e)
+        if name in self.OPERATOR_BIN and len(args) == 2:
+            return self.binop(self.OPERATOR_BIN[name](), args[0], args[1], e)
+        if name == 'operator.not_' and len(args) == 1:
+            return not self.truth(args[0], e)
+        if name == 'operator.neg' and len(args) == 1 and isinstance(args[0], (int, float)):
+            return -args[0]
         return NotImplemented
 
     def apply(self, fn, args, at):
